@@ -1,5 +1,4 @@
 import ExaModel.Lemmas.PackSpec
-import ExaModel.Lemmas.PackRib
 set_option linter.unusedSimpArgs false
 set_option linter.unusedVariables false
 /-!
@@ -14,23 +13,25 @@ for even one prefix no message is produced for those routes rather than an overs
 
 Model: `Exa.Pack` (M-Pack), `pack : Input → Out` = `UpdateCollection.messages(negotiated,
 include_withdraw)` over sizes, for EVERY `M`, attribute length, number and size of NLRIs, number
-of families and next hops.  `(pack i).status` says how the generator ended: `ok`, `noRoom` (the
-silent `log.critical` + `return`), `raised` (`RuntimeError('NLRI too large …')`), `tooLong`
-(`struct.error` from the 16-bit length field).
+of families and next hops, mixed or not — the code after the repairs 9c66abf (F19) and b4bc906
+(IPv4 multicast).  `(pack i).status` says how the generator ended: `ok`, `noRoom` (`msg_size ≤ 0`:
+one `log.critical`, `return`, nothing sent), `tooLong` (`struct.error` from the 16-bit length
+field, which needs a negotiated maximum above 65535).
 
-What is proved, and what is NOT true of the unchanged code:
-* `c09_fits` is the size half, under `FitsAlone` — the hypothesis the proof forces.  Without it
-  the statement is false: `c09_unfit_oversize` (a 4097-byte message on a 4096 session, F19).
-* `c09_complete` is the "lose nothing" half for a generator that ran to its end (`status = ok`).
-  The full statement would need `FitsAlone i → (pack i).status = ok`, which is FALSE:
-  `c09_mixed_mp_raises` (every route fits alone, `RuntimeError` all the same, F19).  So the
-  property is proved as the named parts below; the two witnesses are replayed on the real code by
-  harness/props/C09.py (corpus/C09/f19-*.json).
-* `c09_partial` assembles the parts into the property itself for the collections the RIB really
-  builds (`RibShaped`: one kind of NLRI per collection), where `c09_rib_shaped_runs_to_end` shows
-  that `FitsAlone` does imply `status = ok`.
-* "parses on its own" is about bytes; it is checked by the correspondence run (real decoder on
-  every emitted message), not by this size model.
+`c09` is the property: for every input with `M ≤ 65535`
+  * the generator ends without an exception,
+  * every message is within the negotiated maximum,
+  * the NLRIs announced are EXACTLY the requested announces of negotiated families that fit alone
+    with the attributes, each in a message that carries the attribute block, MP routes under their
+    own next hop; the NLRIs withdrawn are exactly the requested withdraws that fit alone (none
+    without `include_withdraw`),
+  * so a prefix the attributes leave no room for is in no message, and nothing else is dropped.
+The remaining theorems are its parts, stated separately with weaker hypotheses where they need less.
+
+"Parses on its own" is about bytes; it is checked by the correspondence run (the real decoder on
+every emitted message of every case), not by this size model.  Hypotheses that are part of the
+statement: an NLRI has at least one byte (`PosSizes`), `famOrder` lists the families present
+(`FamCover`: it is the iteration of the Python set built from them).
 -/
 namespace Exa.Props.C09
 open Exa Exa.Pack
@@ -40,62 +41,72 @@ open Exa Exa.Pack
 theorem ext_len_switch (a : Mp) : a.wire = a.payload + (if a.payload > 255 then 4 else 3) := by
   rw [wire_eq]; rfl
 
-/-- **Fits (size half of C09).** If every NLRI that is to be sent fits alone with the attributes,
-    every message generated — IPv4 part, every MP family, the message that repeats the IPv4 NLRIs
-    in front of the first MP attribute included — is within the negotiated maximum. -/
-theorem c09_fits (i : Input) (h : FitsAlone i) : ∀ m ∈ (pack i).msgs, m.len ≤ i.M :=
-  fun m hm => packRaw_fits i h m (pack_sub i m hm)
+/-- **Fits — unconditionally.** Every message generated is within the negotiated maximum, whatever
+    the routes, the attributes and `M`: an NLRI that cannot fit alone is left out, never sent
+    oversized. -/
+theorem c09_fits (i : Input) : ∀ m ∈ (pack i).msgs, m.len ≤ i.M :=
+  fun m hm => packRaw_fits i m (pack_sub i m hm)
 
-/-- **Complete ("lose nothing" half), for a generator that ran to its end.** Every requested
-    announce of a negotiated family is in a message that carries the attribute block; with
-    `include_withdraw`, every requested withdraw of a negotiated family is in a message.
-    (Hypotheses: an NLRI has at least one byte; `famOrder` lists the families present.) -/
-theorem c09_complete (i : Input) (hp : PosSizes i) (hf : FamCover i) (hok : (pack i).status = .ok) :
-    (∀ x ∈ i.anns, x.fam ∈ i.negotiated →
+/-- **No exception.** On a session whose maximum is at most 65535 (every BGP session: RFC 4271 /
+    RFC 8654) `messages` never raises: it runs to its end (`ok`), or returns at once because the
+    attributes alone reach the maximum (`noRoom`, nothing sent).  The `RuntimeError` of the old
+    code does not exist any more (`Status` has no such case), `struct.error` cannot happen. -/
+theorem c09_no_exception (i : Input) (hM : i.M ≤ 65535) :
+    (pack i).status = .ok ∨ ((pack i).status = .noRoom ∧ (pack i).msgs = [] ∧ i.M ≤ 23 + chosenAttr i) := by
+  have hc := cut_ok (packRaw i).msgs (fun m hm => Nat.le_trans (packRaw_fits i m hm) hM)
+  rcases packRaw_status i with h | ⟨h1, h2, h3⟩
+  · exact Or.inl (by simp [pack, hc, h])
+  · exact Or.inr ⟨by simp [pack, hc, h1], by simp [pack, h2, cut], h3⟩
+
+/-- **Complete.** Every requested announce of a negotiated family that fits alone with the
+    attributes is in a message that carries the attribute block; with `include_withdraw`, every
+    requested withdraw of a negotiated family that fits alone is in a message.  For ANY collection
+    (mixed families, announces and withdraws together, several next hops). -/
+theorem c09_complete (i : Input) (hM : i.M ≤ 65535) (hp : PosSizes i) (hf : FamCover i) :
+    (∀ x ∈ i.anns, x.fam ∈ i.negotiated → fitsAnn i x →
         ∃ m ∈ (pack i).msgs, x ∈ m.annsOf ∧ m.attrs = true) ∧
-    (i.includeWithdraw = true → ∀ x ∈ i.wds, x.fam ∈ i.negotiated →
+    (i.includeWithdraw = true → ∀ x ∈ i.wds, x.fam ∈ i.negotiated → fitsWd i x →
         ∃ m ∈ (pack i).msgs, x ∈ m.wdsOf) := by
-  -- `ok` means neither exception: the 16-bit cut did not happen and the raw generator ended
-  have hc : (cut (packRaw i).msgs).2 = false := by
-    cases h : (cut (packRaw i).msgs).2 with
-    | false => rfl
-    | true => simp [pack, h] at hok
-  have hraw : (packRaw i).status = .ok := by simpa [pack, hc] using hok
+  have hc := cut_ok (packRaw i).msgs (fun m hm => Nat.le_trans (packRaw_fits i m hm) hM)
   have hm : (pack i).msgs = (packRaw i).msgs := by simp [pack, cut_all _ hc]
   rw [hm]
-  obtain ⟨c1, c2, c3⟩ := packRaw_complete i hp hf hraw
+  obtain ⟨c1, c2, c3⟩ := packRaw_complete i hp hf
   have sec := packRaw_sections i
   have hpos : ∀ x ∈ i.anns, 0 < x.size := hp.1
   constructor
-  · intro x hx hn
+  · intro x hx hn hfit
     by_cases hv : x.v4 = true
-    · obtain ⟨m, hm, hxm⟩ := c1 x (List.mem_filter.2 ⟨hx, by simp [hn, hv]⟩)
+    · have hfit' : 23 + chosenAttr i + x.size ≤ i.M := by simpa [fitsAnn, hv] using hfit
+      obtain ⟨m, hm, hxm⟩ := c1 x (List.mem_filter.2 ⟨hx, by simp [hn, hv]⟩) hfit'
       refine ⟨m, hm, by rw [annsOf_eq]; exact List.mem_append_left _ hxm, ?_⟩
       rcases (sec m hm).att with h | ⟨h, _⟩
       · exact h
       · exfalso
-        have : Pos m.ann4 := fun y hy => hpos y (List.mem_filter.1 ((sec m hm).a4 y hy)).1
+        have : Pos m.ann4 := fun y hy => hpos y (List.mem_filter.1 ((sec m hm).a4 y hy).1).1
         rw [(sz_eq_zero_of_pos this).1 h] at hxm; simp at hxm
-    · obtain ⟨m, hm, r, hr, hxr⟩ := c2 x (List.mem_filter.2 ⟨hx, by simp [hn, hv]⟩)
+    · have hfit' : 23 + chosenAttr i + attrLen (5 + x.nhLen + x.size) ≤ i.M := by simpa [fitsAnn, hv] using hfit
+      obtain ⟨m, hm, r, hr, hxr⟩ := c2 x (List.mem_filter.2 ⟨hx, by simp [hn, hv]⟩) hfit'
       refine ⟨m, hm, by rw [annsOf_eq, hr]; exact List.mem_append_right _ hxr, ?_⟩
       rcases (sec m hm).att with h | ⟨_, h⟩
       · exact h
       · rw [hr] at h; cases h
-  · intro hi x hx hn
+  · intro hi x hx hn hfit
     by_cases hv : x.v4 = true
-    · obtain ⟨m, hm, hxm⟩ := (c3 hi).1 x (List.mem_filter.2 ⟨hx, by simp [hn, hv]⟩)
+    · have hfit' : 23 + chosenAttr i + x.size ≤ i.M := by simpa [fitsWd, hv] using hfit
+      obtain ⟨m, hm, hxm⟩ := (c3 hi).1 x (List.mem_filter.2 ⟨hx, by simp [hn, hv]⟩) hfit'
       exact ⟨m, hm, by rw [wdsOf_eq]; exact List.mem_append_left _ hxm⟩
-    · obtain ⟨m, hm, r, hr, hxr⟩ := (c3 hi).2 x (List.mem_filter.2 ⟨hx, by simp [hn, hv]⟩)
+    · have hfit' : 23 + chosenAttr i + attrLen (3 + x.size) ≤ i.M := by simpa [fitsWd, hv] using hfit
+      obtain ⟨m, hm, r, hr, hxr⟩ := (c3 hi).2 x (List.mem_filter.2 ⟨hx, by simp [hn, hv]⟩) hfit'
       exact ⟨m, hm, by rw [wdsOf_eq, hr]; exact List.mem_append_right _ hxr⟩
 
-/-- **Nothing else** (holds however the generator ended, for the messages it did yield): every
-    NLRI announced by a message is a requested announce of a negotiated family, every NLRI
-    withdrawn is a requested withdraw of a negotiated family and `include_withdraw` was set; the
-    classic fields only hold what the code classifies as IPv4 (`v4`), the MP attributes only the
-    rest.  (The IPv4 NLRIs repeated in the first MP message are the same requested routes.) -/
+/-- **Nothing else, and nothing that does not fit.** Every NLRI announced by a message is a
+    requested announce of a negotiated family that fits alone; every NLRI withdrawn is a requested
+    withdraw of a negotiated family that fits alone and `include_withdraw` was set; the classic
+    fields only hold what the code classifies as IPv4 unicast (`v4`), the MP attributes only the
+    rest.  In particular a prefix the attributes leave no room for is in no message. -/
 theorem c09_nothing_else (i : Input) : ∀ m ∈ (pack i).msgs,
-    (∀ x ∈ m.annsOf, x ∈ i.anns ∧ x.fam ∈ i.negotiated) ∧
-    (∀ x ∈ m.wdsOf, x ∈ i.wds ∧ x.fam ∈ i.negotiated ∧ i.includeWithdraw = true) ∧
+    (∀ x ∈ m.annsOf, x ∈ i.anns ∧ x.fam ∈ i.negotiated ∧ fitsAnn i x) ∧
+    (∀ x ∈ m.wdsOf, x ∈ i.wds ∧ x.fam ∈ i.negotiated ∧ fitsWd i x ∧ i.includeWithdraw = true) ∧
     (∀ x ∈ m.ann4 ++ m.wd4, x.v4 = true) ∧
     (∀ x ∈ oitems m.reach ++ oitems m.unreach, x.v4 = false) := by
   intro m hm
@@ -112,26 +123,33 @@ theorem c09_nothing_else (i : Input) : ∀ m ∈ (pack i).msgs,
   · intro x hx
     rw [annsOf_eq] at hx
     rcases List.mem_append.1 hx with h | h
-    · have := fa x (s.a4 x h); exact ⟨this.1, this.2.1⟩
+    · have h' := s.a4 x h
+      have := fa x h'.1
+      exact ⟨this.1, this.2.1, by simpa [fitsAnn, this.2.2] using h'.2⟩
     · cases hr : m.reach with
       | none => simp [hr] at h
       | some r =>
         simp [hr] at h
-        have := ma x ((s.r r hr).2 x h).1; exact ⟨this.1, this.2.1⟩
+        have h' := (s.r r hr).2 x h
+        have := ma x h'.1
+        exact ⟨this.1, this.2.1, by simpa [fitsAnn, this.2.2] using h'.2.2.2.2⟩
   · intro x hx
     rw [wdsOf_eq] at hx
     rcases List.mem_append.1 hx with h | h
     · have h' := s.w4 x h
-      have := fw x h'.1; exact ⟨this.1, this.2.1, h'.2⟩
+      have := fw x h'.1
+      exact ⟨this.1, this.2.1, by simpa [fitsWd, this.2.2] using h'.2.2, h'.2.1⟩
     · cases hu : m.unreach with
       | none => simp [hu] at h
       | some u =>
         simp [hu] at h
         have h' := s.u u hu
-        have := mw x (h'.2.2 x h).1; exact ⟨this.1, this.2.1, h'.1⟩
+        have h'' := h'.2.2 x h
+        have := mw x h''.1
+        exact ⟨this.1, this.2.1, by simpa [fitsWd, this.2.2] using h''.2.2, h'.1⟩
   · intro x hx
     rcases List.mem_append.1 hx with h | h
-    · exact (fa x (s.a4 x h)).2.2
+    · exact (fa x (s.a4 x h).1).2.2
     · exact (fw x (s.w4 x h).1).2.2
   · intro x hx
     rcases List.mem_append.1 hx with h | h
@@ -154,10 +172,22 @@ theorem c09_own_nexthop (i : Input) : ∀ m ∈ (pack i).msgs,
   constructor
   · intro r hr
     obtain ⟨h1, h2⟩ := s.r r hr
-    exact ⟨h1, fun x hx => (h2 x hx).2⟩
+    exact ⟨h1, fun x hx => ⟨(h2 x hx).2.1, (h2 x hx).2.2.1, (h2 x hx).2.2.2.1⟩⟩
   · intro u hu
     obtain ⟨_, h1, h2⟩ := s.u u hu
-    exact ⟨h1, fun x hx => (h2 x hx).2⟩
+    exact ⟨h1, fun x hx => (h2 x hx).2.1⟩
+
+/-- **The attribute block travels with every announce.** -/
+theorem c09_attrs_present (i : Input) (hp : PosSizes i) : ∀ m ∈ (pack i).msgs, m.annsOf ≠ [] → m.attrs = true := by
+  intro m hm hne
+  have s := packRaw_sections i m (pack_sub i m hm)
+  rcases s.att with h | ⟨h0, hr⟩
+  · exact h
+  · exfalso
+    apply hne
+    rw [annsOf_eq, hr]
+    have : Pos m.ann4 := fun y hy => hp.1 y (List.mem_filter.1 (s.a4 y hy).1).1
+    simp [(sz_eq_zero_of_pos this).1 h0]
 
 /-- **No room at all.** When the attribute block alone (with the 23 bytes of framing) reaches the
     negotiated maximum, no message is produced. -/
@@ -165,92 +195,54 @@ theorem c09_no_room (i : Input) (h : i.M ≤ 23 + chosenAttr i) : (pack i).msgs 
   have := packRaw_no_room i h
   simp [pack, this, cut]
 
-/-- **Giving up is silent and total.** Whenever the code takes its `log.critical` + `return`
-    (attributes too large for the NLRI in hand), it has not produced any message — in particular
-    no oversized one. -/
-theorem c09_gives_up_before_first_message (i : Input) (hp : PosSizes i) (h : (pack i).status = .noRoom) :
-    (pack i).msgs = [] := by
-  have hc : (cut (packRaw i).msgs).2 = false := by
-    cases hh : (cut (packRaw i).msgs).2 with
-    | false => rfl
-    | true => simp [pack, hh] at h
-  have hraw : (packRaw i).status = .noRoom := by simpa [pack, hc] using h
-  have := packRaw_noRoom i hp hraw
-  simp [pack, this, cut]
-
-/-- **The collections the RIB builds run to the end.** `OutgoingRIB.updates` only ever builds
-    collections of one kind — classic IPv4 NLRIs only, or NLRIs of MP families with announces or
-    withdraws but not both (`RibShaped`).  For those, when every NLRI fits alone (and the attributes
-    leave any room at all, on a session whose maximum is at most 65535), `messages` ends normally:
-    no `RuntimeError`, no `struct.error`, no silent give-up. -/
-theorem c09_rib_shaped_runs_to_end (i : Input) (hfit : FitsAlone i) (hM : i.M ≤ 65535)
-    (hroom : 23 + chosenAttr i < i.M) (hs : RibShaped i) : (pack i).status = .ok := by
-  have hraw := packRaw_rib_ok i hfit hroom hs
-  have hc := cut_ok (packRaw i).msgs (fun m hm => Nat.le_trans (packRaw_fits i hfit m hm) hM)
-  simp [pack, hc, hraw]
-
-/-- **C09 in full for the collections the RIB builds** (`c09_partial`: the missing part of the
-    property as worded — arbitrary MIXED collections — is false of the unchanged code, see
-    `c09_mixed_mp_raises`).  When every NLRI fits alone: every message is within the negotiated
-    maximum; the messages announce exactly the requested routes of negotiated families, each in a
-    message that carries the attribute block, MP routes under their own next hop; they withdraw
-    exactly the requested withdrawals (none without `include_withdraw`); nothing else. -/
-theorem c09_partial (i : Input) (hfit : FitsAlone i) (hp : PosSizes i) (hf : FamCover i) (hM : i.M ≤ 65535)
-    (hroom : 23 + chosenAttr i < i.M) (hs : RibShaped i) :
+/-- **C09.** For every collection on a session whose maximum is at most 65535: no exception; every
+    message within the maximum; announced = requested ∩ negotiated ∩ fits-alone, with the
+    attribute block and under its own next hop; withdrawn = requested ∩ negotiated ∩ fits-alone
+    (when `include_withdraw`); nothing else. -/
+theorem c09 (i : Input) (hM : i.M ≤ 65535) (hp : PosSizes i) (hf : FamCover i) :
+    (pack i).status ≠ .tooLong ∧
     (∀ m ∈ (pack i).msgs, m.len ≤ i.M) ∧
-    (∀ x, (∃ m ∈ (pack i).msgs, x ∈ m.annsOf) ↔ (x ∈ i.anns ∧ x.fam ∈ i.negotiated)) ∧
+    (∀ x, (∃ m ∈ (pack i).msgs, x ∈ m.annsOf) ↔ (x ∈ i.anns ∧ x.fam ∈ i.negotiated ∧ fitsAnn i x)) ∧
     (∀ m ∈ (pack i).msgs, m.annsOf ≠ [] → m.attrs = true) ∧
     (∀ x, (∃ m ∈ (pack i).msgs, x ∈ m.wdsOf) ↔
-        (x ∈ i.wds ∧ x.fam ∈ i.negotiated ∧ i.includeWithdraw = true)) ∧
+        (x ∈ i.wds ∧ x.fam ∈ i.negotiated ∧ fitsWd i x ∧ i.includeWithdraw = true)) ∧
     (∀ m ∈ (pack i).msgs, ∀ r, m.reach = some r →
         ∀ x ∈ r.items, x.fam = r.fam ∧ x.nh = r.nh ∧ x.nhLen = r.nhLen) := by
-  have hok := c09_rib_shaped_runs_to_end i hfit hM hroom hs
-  have hc := c09_complete i hp hf hok
-  refine ⟨c09_fits i hfit, ?_, ?_, ?_, ?_⟩
+  have hc := c09_complete i hM hp hf
+  refine ⟨?_, c09_fits i, ?_, c09_attrs_present i hp, ?_, ?_⟩
+  · rcases c09_no_exception i hM with h | ⟨h, _, _⟩ <;> simp [h]
   · intro x
     constructor
     · rintro ⟨m, hm, hx⟩; exact (c09_nothing_else i m hm).1 x hx
-    · rintro ⟨hx, hn⟩
-      obtain ⟨m, hm, hxm, _⟩ := hc.1 x hx hn
+    · rintro ⟨hx, hn, hfit⟩
+      obtain ⟨m, hm, hxm, _⟩ := hc.1 x hx hn hfit
       exact ⟨m, hm, hxm⟩
-  · intro m hm hne
-    have s := packRaw_sections i m (pack_sub i m hm)
-    rcases s.att with h | ⟨h0, hr⟩
-    · exact h
-    · exfalso
-      apply hne
-      rw [annsOf_eq, hr]
-      have : Pos m.ann4 := fun y hy => hp.1 y (List.mem_filter.1 (s.a4 y hy)).1
-      simp [(sz_eq_zero_of_pos this).1 h0]
   · intro x
     constructor
     · rintro ⟨m, hm, hx⟩; exact (c09_nothing_else i m hm).2.1 x hx
-    · rintro ⟨hx, hn, hi⟩
-      exact hc.2 hi x hx hn
+    · rintro ⟨hx, hn, hfit, hi⟩
+      exact hc.2 hi x hx hn hfit
   · intro m hm r hr x hx
     exact ((c09_own_nexthop i m hm).1 r hr).2 x hx
 
-/-! ## The excluded points (F19): `decide` witnesses, replayed on the real code -/
+/-! ## The two points that were excluded before the repair (F19), on the repaired model
 
-/-! `unfitInput` and `mixedInput` are defined next to the model (`Model/Pack.lean`); the harness
-    checks through `drv_pack` (`pack witness unfit|mixed`) that they are exactly the inputs measured on
-    the real objects of corpus/C09/f19-oversize-4097.json and corpus/C09/f19-runtime-error.json, and
-    that the real code does what the two theorems say. -/
+`unfitInput` and `mixedInput` are defined next to the model (`Model/Pack.lean`); the harness checks
+through `drv_pack` (`pack witness unfit|mixed`) that they are exactly the inputs measured on the real
+objects of corpus/C09/f19-oversize-4097.json and corpus/C09/f19-runtime-error.json, and that the real
+code does what these examples say. -/
 
-/-- **Without `FitsAlone` the size half is false**: the second message is 4097 bytes long on a
-    session whose maximum is 4096 (the second prefix does not fit alone: 23 + 4069 + 5 = 4097). -/
-theorem c09_unfit_oversize :
-    ¬ FitsAlone unfitInput ∧ (pack unfitInput).status = .ok ∧
-    (pack unfitInput).msgs.map (·.len) = [4094, 4097] ∧ unfitInput.M = 4096 := by
-  decide
+/-- was: messages of 4094 and **4097** bytes on a 4096 session.  Now the /32 that cannot fit alone
+    (23 + 4069 + 5 = 4097) is left out with one log line and the /8 is sent. -/
+example : (pack unfitInput).status = .ok ∧ (pack unfitInput).msgs.map (·.len) = [4094]
+    ∧ (pack unfitInput).msgs.map (fun m => m.ann4.map (·.id)) = [[1]] ∧ logged unfitInput = 1
+    ∧ ¬ fitsAnn unfitInput (nlri4 2 5) := by decide
 
-/-- **Every route fits alone and yet nothing is sent**: the MP_UNREACH generator is given the room
-    left NEXT TO the pending MP_REACH (60 − 58 = 2 bytes) and raises `RuntimeError` instead of the
-    pending attribute being sent first; both announces and the withdraw are lost. -/
-theorem c09_mixed_mp_raises :
-    FitsAlone mixedInput ∧ PosSizes mixedInput ∧ FamCover mixedInput ∧
-    (pack mixedInput).status = .raised ∧ (pack mixedInput).msgs = [] := by
-  decide
+/-- was: `RuntimeError`, nothing sent.  Now the MP_REACH (58 bytes) goes in a first message and the
+    MP_UNREACH, which does not fit next to it (58 + 23 > 60), in a second one. -/
+example : (pack mixedInput).status = .ok ∧ (pack mixedInput).msgs.map (·.len) = [4094, 4059]
+    ∧ (pack mixedInput).msgs.map (fun m => ((oitems m.reach).map (·.id), (oitems m.unreach).map (·.id)))
+        = [([1, 2], []), ([], [3])] ∧ logged mixedInput = 0 := by decide
 
 /-! ## Non-vacuity: the hypotheses are satisfiable on inputs that exercise every part -/
 
@@ -258,32 +250,26 @@ def v4 (id size : Nat) : Nlri := nlri4 id size
 def v6 (id size nh : Nat) : Nlri := nlri6 id size nh
 
 /-- Thirteen IPv4 announces and a withdraw that need two messages (the first one exactly full),
-    then two MP families; the first MP message repeats the IPv4 NLRIs of the last IPv4 message; two
-    next hops in family 3; reach and unreach of family 3 share a message; one route (id 27) is of
-    a family that is not negotiated. -/
+    then two MP families; two next hops in family 3; reach and unreach of family 3 share a message;
+    one route (id 27) is of a family that is not negotiated; one IPv6 route (id 30, 90 bytes with a
+    16-byte next hop → 114-byte attribute) cannot fit in the 60 bytes the attributes leave. -/
 def demo : Input :=
   { M := 100, attrDef := 17, attrNoDef := 0, negotiated := [1, 3, 4], simple := [1, 2, 3, 4], famOrder := [4, 3],
     anns := (List.range 13).map (fun k => v4 (k + 1) 5)
-      ++ [{ (v6 24 2 1) with fam := 4 }, v6 25 3 1, v6 26 3 2, { (v4 27 5) with fam := 9 }],
+      ++ [{ (v6 24 2 1) with fam := 4 }, v6 25 3 1, v6 26 3 2, { (v4 27 5) with fam := 9 }, v6 30 90 1],
     wds := [v4 28 4, wd6 29 2], includeWithdraw := true }
 
-example : FitsAlone demo ∧ PosSizes demo ∧ FamCover demo := by decide
-example : (pack demo).status = .ok := by decide
-example : (pack demo).msgs.map (·.len) = [100, 49, 75, 67, 75] := by decide
-/-- the IPv4 section is repeated in the first MP message (family 4 comes first in the set order) -/
+example : demo.M ≤ 65535 ∧ PosSizes demo ∧ FamCover demo := by decide
+example : (pack demo).status = .ok ∧ logged demo = 1 := by decide
+example : (pack demo).msgs.map (·.len) = [100, 49, 66, 67, 75] := by decide
+/-- the IPv4 NLRIs are NOT repeated in the first MP message any more -/
 example : ((pack demo).msgs.map (fun m => (m.wd4.map (·.id), m.ann4.map (·.id), (oitems m.reach).map (·.id),
     (oitems m.unreach).map (·.id)))) =
-    [([], [1, 2, 3, 4, 5, 6, 7, 8, 9, 10, 11, 12], [], []), ([28], [13], [], []), ([28], [13], [24], []),
+    [([], [1, 2, 3, 4, 5, 6, 7, 8, 9, 10, 11, 12], [], []), ([28], [13], [], []), ([], [], [24], []),
      ([], [], [25], []), ([], [], [26], [29])] := by decide
-/-- the route of the family that is not negotiated (id 7) is in no message -/
-example : ∀ m ∈ (pack demo).msgs, ∀ x ∈ m.annsOf, x.id ≠ 27 := by decide
-/-- `c09_partial` is not vacuous: 13 IPv4 announces needing two messages; an MP family with two next hops -/
-example : let i := { demo with anns := (List.range 13).map (fun k => v4 (k + 1) 5), wds := [] }
-    FitsAlone i ∧ PosSizes i ∧ FamCover i ∧ RibShaped i ∧ 23 + chosenAttr i < i.M ∧ (pack i).msgs.length = 2 := by decide
-example : let i := { demo with anns := [v6 25 3 1, v6 26 3 2, v6 27 17 1], wds := [] }
-    FitsAlone i ∧ PosSizes i ∧ FamCover i ∧ RibShaped i ∧ 23 + chosenAttr i < i.M ∧ (pack i).msgs.length = 2 := by decide
-/-- `demo` itself is mixed (not `RibShaped`), and `mixedInput` is why the hypothesis is there -/
-example : ¬ RibShaped demo ∧ ¬ RibShaped mixedInput := by decide
+/-- the route of the family that is not negotiated (27) and the one that cannot fit (30) are in no message -/
+example : ∀ m ∈ (pack demo).msgs, ∀ x ∈ m.annsOf, x.id ≠ 27 ∧ x.id ≠ 30 := by decide
+example : ¬ fitsAnn demo (v6 30 90 1) ∧ fitsAnn demo (v6 25 3 1) ∧ fitsWd demo (wd6 29 2) := by decide
 /-- `c09_no_room` is not vacuous: a request, attributes that fill the message, no output -/
 example : (pack { demo with attrDef := 77 }).msgs = [] ∧ (pack { demo with attrDef := 77 }).status = .noRoom := by decide
 /-- only MP withdraws: the attribute block without defaults is chosen -/
@@ -294,8 +280,9 @@ example : (pack { demo with M := 4096, anns := (List.range 14).map (fun k => v6 
     = [19 + 4 + 17 + (4 + (21 + 14 * 17))] := by decide
 example : (pack { demo with M := 4096, anns := (List.range 13).map (fun k => v6 k 17 1), wds := [] }).msgs.map (·.len)
     = [19 + 4 + 17 + (3 + (21 + 13 * 17))] := by decide
-/-- on a 65535 session the oversized message is not sent: `struct.error` (status `tooLong`) -/
-example : (pack { unfitInput with M := 65535, attrDef := 65508 }).status = .tooLong
+/-- the former `struct.error` case on a 65535 session: the message that would have been 65536 bytes
+    is not built; the /8 is sent in 65533 bytes -/
+example : (pack { unfitInput with M := 65535, attrDef := 65508 }).status = .ok
     ∧ (pack { unfitInput with M := 65535, attrDef := 65508 }).msgs.map (·.len) = [65533] := by decide
 
 end Exa.Props.C09
